@@ -110,14 +110,14 @@ def replay_witness(w):
     crate = _prep_crate(os.path.join(VERIF, w['driver']), 'replay_' + w['driver'].replace('/', '_'))
     env = _env(); env['CARGO_TARGET_DIR'] = os.path.join(BUILD, w.get('target', 'replay-target'))
     args = [str(v) for v in w['args'].values()]
-    cmd = ['cargo', 'run', '--offline', '-q', '--bin', w.get('bin', 'replay'), '--'] + args
+    cmd = ['cargo', 'run', '--offline', '-q'] + (['--features', w['features']] if w.get('features') else []) + ['--bin', w.get('bin', 'replay'), '--'] + args
     try:
         p = subprocess.run(cmd, cwd=crate, env=env, capture_output=True, text=True, timeout=1800)
     except subprocess.TimeoutExpired:
         return {'reproduced': None, 'output': 'timeout'}
     # exit 1 = the driver found / reproduced a violation; exit 101 = the driver itself panicked inside the real code
     # (an uncaught panic of the code under test is a crash on that input)
-    return {'reproduced': p.returncode in (1, 101), 'rc': p.returncode, 'output': (p.stdout + p.stderr)[-1500:], 'cmd': ' '.join(cmd)}
+    return {'reproduced': p.returncode in (1, 101), 'rc': p.returncode, 'output': (p.stdout + p.stderr)[-200000:], 'cmd': ' '.join(cmd)}
 
 
 def run_rustc_traits(eng, prop, tier, seed):
